@@ -13,7 +13,7 @@ from pyvc.tree import (SEQ_ATTR as SeqAttr, ATTR_PAIR as AttrPair, PAT as Pat, A
                        FLAGS as Flags)
 from spec.vocab_tree import (parent, contents, idx, depth, is_tag, is_doc, is_navstr, is_comment, is_cdata, is_pi, is_decl,
                              is_doctype, text, name, prefix, namespace, is_xml_flag, next_sibling, previous_sibling, same,
-                             ascii_lower, height, bidi_class, ns_get, html_ns_map, fake_parent, rattrs, norm, as_str, is_str_val, ws_tokens, is_list_val, as_list, attr_ns, attr_local, pat_match, join_sp, has_non_ws, strip_nonempty, wild_strip, py_lower, split_dash, join_empty, NS_XHTML, NS_XML)
+                             ascii_lower, height, bidi_class, descendants, dsize, dindex, next_element, ls_starts, ls_end, ns_get, html_ns_map, fake_parent, rattrs, norm, as_str, is_str_val, ws_tokens, is_list_val, as_list, attr_ns, attr_local, pat_match, join_sp, has_non_ws, strip_nonempty, wild_strip, py_lower, split_dash, join_empty, NS_XHTML, NS_XML)
 from spec.vocab_ir import (sel_is_null, SEL_EMPTY, SEL_ROOT, SEL_DEFAULT, SEL_INDETERMINATE, SEL_SCOPE, SEL_DIR_LTR, SEL_DIR_RTL,
                            SEL_IN_RANGE, SEL_OUT_OF_RANGE, SEL_DEFINED, SEL_PLACEHOLDER_SHOWN, DIR_FLAGS, RANGES)
 
@@ -1085,7 +1085,6 @@ def dir_value(v: str) -> OptFlags:
     return None
 
 
-@named
 def dir_attr(el: Node) -> OptFlags:
     return dir_value(ascii_lower(as_str(attr_by_name(el, 'dir', ''))))
 
@@ -1106,7 +1105,6 @@ def all_kids(m: M, n: Node) -> SeqNode:
     return kids_spec(m, n, None, False, False, False)
 
 
-@named
 def bidi_skip(m: M, n: Node) -> bool:
     """Children not consulted by dir=auto: bdi, script, style, textarea, iframe, foreign elements, elements with their own dir."""
     nm = tag_name(m, n)
@@ -1131,7 +1129,6 @@ def bidi_of(m: M, seq: SeqNode, i: int) -> OptFlags:
     return bidi_of(m, seq, i + 1)
 
 
-@named
 def auto_text_input(m: M, el: Node) -> bool:
     """Elements whose dir=auto looks at their value: textarea and the text-like input types."""
     t = ascii_lower(as_str(attr_by_name(el, 'type', '')))
@@ -1139,7 +1136,6 @@ def auto_text_input(m: M, el: Node) -> bool:
                                              (t == 'text' or t == 'search' or t == 'tel' or t == 'url' or t == 'email'))
 
 
-@named
 def auto_value(m: M, el: Node) -> str:
     if tag_name(m, el) == 'textarea':
         return join_empty(texts_from(own_contents(m, el, True), 0))
@@ -1180,3 +1176,60 @@ def sem_dir(m: M, el: Node, d: Flags) -> bool:
     if (d & SEL_DIR_LTR) != 0 and (d & SEL_DIR_RTL) != 0:
         return False
     return dir_of(m, el) is not None and dir_of(m, el) == d
+
+
+# ---------------------------------------------------------------------------------------------- get_descendants (C03, C19)
+
+def last_desc(n: Node) -> Node:
+    """The last node of n's subtree in document order (n itself when it has no children)."""
+    if n is None or not is_tag(n) or len(contents(n)) == 0:
+        return n
+    return last_desc(contents(n)[len(contents(n)) - 1])
+
+
+def desc_flat(m: M, D: SeqNode, i: int, tags: bool, no_iframe: bool) -> SeqNode:
+    """Over the pre-order sequence D from position i on: every node (only Tags when asked), in order, except that the subtree below an
+    iframe element is passed over when no_iframe (the iframe element itself is kept)."""
+    if i < 0 or i >= len(D):
+        return []
+    if is_tag(D[i]):
+        if no_iframe and is_iframe_el(m, D[i]):
+            return [D[i]] + desc_flat(m, D, i + 1 + dsize(D[i]), tags, no_iframe)
+        return [D[i]] + desc_flat(m, D, i + 1, tags, no_iframe)
+    if not tags:
+        return [D[i]] + desc_flat(m, D, i + 1, tags, no_iframe)
+    return desc_flat(m, D, i + 1, tags, no_iframe)
+
+
+def desc_def(m: M, el: Node, tags: bool, no_iframe: bool) -> SeqNode:
+    """What get_descendants yields: nothing for a missing element or (no_iframe) an iframe, otherwise desc_flat over el's pre-order."""
+    if el is None or (no_iframe and is_iframe_el(m, el)):
+        return []
+    return desc_flat(m, descendants(el), 0, tags, no_iframe)
+
+
+# ---------------------------------------------------------------------------------------------- line and column of an offset (C20.O1)
+
+def brk_cnt(s: str, k: int, index: int) -> int:
+    """Number of line breaks of s, from the k-th on, that end at or before offset index (line breaks are the matches before the last
+    one of ls_starts(s); they come in increasing order, so counting stops at the first that ends later)."""
+    if k < 0 or k >= len(ls_starts(s)) - 1 or ls_end(s, ls_starts(s)[k]) > index:
+        return 0
+    return 1 + brk_cnt(s, k + 1, index)
+
+
+def line_begin(s: str, k: int, index: int, acc: int) -> int:
+    """Offset just after the last line break (from the k-th on) that ends at or before index; acc when there is none."""
+    if k < 0 or k >= len(ls_starts(s)) - 1 or ls_end(s, ls_starts(s)[k]) > index:
+        return acc
+    return line_begin(s, k + 1, index, ls_end(s, ls_starts(s)[k]))
+
+
+def line_of(s: str, index: int) -> int:
+    """C20: line = 1 + number of line breaks before the offset."""
+    return 1 + brk_cnt(s, 0, index)
+
+
+def col_of(s: str, index: int) -> int:
+    """C20: column = offset within that line + 1."""
+    return index - line_begin(s, 0, index, 0) + 1
